@@ -220,9 +220,9 @@ pub fn point(name: &str) {
         Err(_) => return,
     };
     let msg = format!(
-        "{{\"kind\":\"point\",\"pid\":{},\"name\":{:?},\"seq\":{}}}\n",
+        "{{\"kind\":\"point\",\"pid\":{},\"name\":{},\"seq\":{}}}\n",
         std::process::id(),
-        name,
+        serde_json::to_string(name).unwrap_or_else(|_| "\"?\"".to_string()),
         seq
     );
     if stream.write_all(msg.as_bytes()).is_err() {
